@@ -1845,7 +1845,32 @@ def ob_async_io(ctx, tier):
             c.fail("io_dispatcher_does_not_continue", p)
     for nm, want in (("poll_read", "READ"), ("poll_read_vectored", "READ"), ("poll_write", "WRITE"),
                      ("poll_write_vectored", "WRITE"), ("poll_flush", "WRITE")):
-        f, paths, cfg = run_fn(ctx, r"^fn io::<impl at [^>]*>::%s\(_1: Pin<&mut Async" % nm)
+        try:
+            f, paths, cfg = run_fn(ctx, r"^fn io::<impl at [^>]*>::%s\(_1: Pin<&mut Async" % nm)
+        except Unsupported:
+            # round 9 (seed C17-6): the per-path decision below presupposes ONE I/O attempt per poll (what was written or
+            # read before a Pending answer is reported to nobody, so a second attempt in the same poll breaks byte-exactness).
+            # A body the engine cannot execute (slice iteration) is still decided on that presupposition from its MIR text:
+            # more than one I/O call site, or an I/O call site inside a loop, is reported as a candidate -- and, like every M
+            # candidate, becomes a VIOLATION only when a native scenario reproduces it (inconclusive otherwise)
+            fn_ = ctx.fn(r"^fn io::<impl at [^>]*>::%s\(_1: Pin<&mut Async" % nm)
+            body = "\n".join(fn_.src)
+            sites = re.findall(r" as (?:std::io::)?(?:Read|Write)>::(?:read|write|read_vectored|write_vectored|flush)\(", body)
+            back = False
+            cur = -1
+            for ln in fn_.src:
+                mb = re.match(r"\s*bb(\d+)(?: \(cleanup\))?: \{", ln)
+                if mb:
+                    cur = int(mb.group(1))
+                if "(cleanup)" not in ln:
+                    for tgt in re.findall(r"(?:goto -> |return: |otherwise: |\d+: )bb(\d+)", ln):
+                        if cur >= 0 and int(tgt) <= cur:
+                            back = True
+            if len(sites) != 1 or back:
+                c.failing.append(nm + "_io_attempted_repeatedly_within_one_poll")
+                c.cex = c.cex or "%s: %d I/O call site(s)%s in a body the engine cannot execute" % (nm, len(sites), ", loop" if back else "")
+                continue
+            raise
         allp += paths
         for p in paths:
             if p.status != "return" or not isinstance(p.ret, Enum):
